@@ -10,7 +10,7 @@ from hypothesis import strategies as st
 
 OPS = ("$and", "$or", "$and_any_order", "$not")
 MNAMES = ["@ma_", "@mb_", "@mc_", "@md_", "@me_", "@mf_"]
-FORMALS = ["argx", "argy", "argz"]
+FORMALS = ["a", "b", "r", "x", "argx", "e", "argy", "ax", "argz"]  # short ones occur inside literals of the body (rax, rbx): formals are matched by equality only
 
 
 def _is_item_dict(node):
@@ -151,7 +151,7 @@ def factor(draw, pattern, max_macros=4):
             if not leaves:
                 continue
             taken = all_strings(body_node, set())
-            formals = [f for f in FORMALS if f not in taken]
+            formals = [f for f in draw(st.permutations(FORMALS)) if f not in taken]
             nform = draw(st.integers(1, min(3, len(leaves), len(formals))))
             chosen = draw(st.permutations(list(range(len(leaves)))))[:nform]
             actuals = {}
